@@ -70,7 +70,7 @@ CHECKS["C05"] = dict(
     text="Coq theorems about the abstract per-(listener,service,source) history specification that judges every trace (alternation for EVERY input history, reboot's stopped before the same message's offered, removal once, expiry on time) + TimedStore machine invariant (C09). The end-to-end refinement of the loop model to this specification is not proved; it is checked on every run: complete model-vs-implementation traces over timed histories incl. same-iteration coincidences, implementation traces judged by the extracted check_C05. Known finding F13 (duplicate registrations).",
     design="6 (C05)", technique="Coq proof over the abstract history specification + executable loop model with exact trace correspondence on a virtual-time asyncio loop + extracted checker", note=STACK_NOTE)
 CHECKS["C06"] = dict(
-    text="Coq theorems about the abstract per-(instance,subscriber,subscription) history specification (alternation for every input history, rejected never recorded or reported, reboot before the same message's Subscribe, TTL restarted by refresh) and about handle_subscribe (listener consulted before recording, exactly one queue_send). End-to-end refinement not proved; checked on every run by exact trace correspondence and check_C06 (incl. positive-Ack-implies-recorded).",
+    text="Coq theorem over WHOLE RUNS of the full stack model (every scenario and schedule, invariant kept by every callback / loop step / run): the server listeners' notifications are a truthful, strictly alternating history - latest notification 'subscribed, accepted' exactly when the subscription is stored; 'subscribed' only for a subscription that is not live, 'unsubscribed' only for one that is; a rejected subscription is neither recorded nor reported gone. Also: Coq theorems about the abstract per-(instance,subscriber,subscription) history specification (alternation for every input history, rejected never recorded or reported, reboot before the same message's Subscribe, TTL restarted by refresh) and about handle_subscribe (listener consulted before recording, exactly one queue_send). End-to-end refinement not proved; checked on every run by exact trace correspondence and check_C06 (incl. positive-Ack-implies-recorded).",
     design="6 (C06)", technique="Coq proof over the abstract history specification + function-level theorems + exact trace correspondence + extracted checker", note=STACK_NOTE)
 CHECKS["C09"] = dict(
     text="Coq theorems: (A) the TimedStore algorithm as an abstract machine keeps 'live expiry timers <-> stored entries with a timer, one to one' for EVERY sequence of refresh/stop/remove-where/firing (no stale timer, infinite TTL owns none, removed entry has none); (B) the history specification expires exactly once exactly at t0+ttl, never earlier, is postponed/cancelled by a refresh, silent after removal. (C) refinement of the loop model not proved; checked on every run (both stores, deadlines +-1 tick, same-iteration coincidences both orders).",
